@@ -166,6 +166,9 @@ def run(ctx):
         T.clause_tables(R, F, dm, only_fields=ctx_tables)
     # "block number = the height being built": the height comes from the cached chain tip, which must not outlive its blocks
     T.clause_derived_caches_coherent(R, F)
+    # ... and from the block tables' last key, which must look at committed *and* uncommitted rows (the larger wins): with only
+    # one source consulted a reorg into an uncommitted suffix deletes nothing and the next height is derived from an orphan
+    T.clause_read_merge(R, F, scans=())
     # controller loaders use the indexer address as sender
     for ln in ("load_brc20_mint_tx", "load_brc20_burn_tx", "load_brc20_deploy_tx"):
         lf = [f for f in F.fns.values() if f.name.endswith("brc20_controller::" + ln)]
